@@ -1,5 +1,6 @@
 import RPVerif.Model.Bridge
 import RPVerif.Gen.Bridge
+import RPVerif.Model.Proxy
 
 /-!
 # C16 — Client and agents exchange each forwarded message exactly once
@@ -411,5 +412,92 @@ theorem C16_subagents_witness :
     deliveries (localPub (wiredSides true [(1, 1), (2, 0)]) 2 0 ⟨none, some true, 7⟩) 1 = 2
     ∧ deliveries (localPub (wiredSides true [(1, 1), (2, 0)]) 2 0 ⟨none, some true, 7⟩) 2 = 1
     ∧ deliveries (localPub (wiredSides false [(1, 1), (2, 0)]) 2 0 ⟨none, some true, 7⟩) 1 = 1 := by decide
+
+/-! ### the proxy service ends the channels of silent sessions only (round 17) -/
+
+open RPVerif.Proxy in
+theorem evict_subset (l : List Nat) : ∀ (s : PS) (c : Client), c ∈ s.clients → c ∉ (evict s l).clients → c.sid ∈ l := by
+  induction l with
+  | nil => intro s c hc hn; exact absurd hc hn
+  | cons sid l ih =>
+    intro s c hc hn
+    unfold evict at hn
+    by_cases hs : c.sid = sid
+    · rw [hs]; exact List.mem_cons_self
+    · cases hf : s.clients.find? (fun x => x.sid = sid) with
+      | none =>
+        rw [hf] at hn
+        exact List.mem_cons_of_mem _ (ih s c hc hn)
+      | some d =>
+        rw [hf] at hn
+        simp only at hn
+        refine List.mem_cons_of_mem _ (ih _ c ?_ hn)
+        simp only [List.mem_filter, decide_eq_true_eq]
+        exact ⟨hc, hs⟩
+
+open RPVerif.Proxy in
+theorem same_of_sid (l : List Client) (h : (l.map (·.sid)).Nodup) (a b : Client) (ha : a ∈ l) (hb : b ∈ l)
+    (e : a.sid = b.sid) : a = b := by
+  induction l with
+  | nil => simp at ha
+  | cons x xs ih =>
+    simp only [List.map_cons, List.nodup_cons] at h
+    rcases List.mem_cons.mp ha with rfl | ha' <;> rcases List.mem_cons.mp hb with rfl | hb'
+    · rfl
+    · exact absurd (List.mem_map.mpr ⟨b, hb', e.symm⟩) h.1
+    · exact absurd (List.mem_map.mpr ⟨a, ha', e⟩) h.1
+    · exact ih h.2 ha' hb'
+
+open RPVerif.Proxy in
+/-- the registry is keyed by session id: no two records of one id, whatever the sessions do -/
+theorem act_nodup (s : PS) (a : Act) (h : (s.clients.map (·.sid)).Nodup) : ((act s a).clients.map (·.sid)).Nodup := by
+  cases a with
+  | reg sid =>
+    simp only [act, List.map_append, List.map_cons, List.map_nil]
+    rw [List.nodup_append]
+    refine ⟨(List.Sublist.map _ List.filter_sublist).nodup h, by simp, ?_⟩
+    intro x hx y hy
+    simp only [List.mem_map, List.mem_filter, decide_eq_true_eq] at hx
+    obtain ⟨c, ⟨_, hne⟩, rfl⟩ := hx
+    simp only [List.mem_singleton] at hy
+    rw [hy]; simpa using hne
+  | hb sid =>
+    simp only [act, List.map_map]
+    have : ((fun c : Client => c.sid) ∘ fun c => if c.sid = sid then { c with hb := s.now } else c) = (fun c => c.sid) := by
+      funext c; simp only [Function.comp]; split <;> rfl
+    rw [this]; exact h
+  | skip t => exact h
+
+open RPVerif.Proxy in
+/-- **C16, the channels of a live session stay up**: with the eviction list of `Proxy._monitor` made anew in every pass
+    (`Gen.proxyEvictionListFresh`, read from proxy.py), a pass of the monitor ends the channels of a registered session
+    only if its last heartbeat (or its registration) is older than the timeout AT THAT PASS - whatever happened to the same
+    session id before: an earlier registration that timed out and was ended does not count against the new one -/
+theorem C16_proxy_ends_silent_only (T : Nat) (s : PS) (hu : (s.clients.map (·.sid)).Nodup) (c : Client) (hc : c ∈ s.clients)
+    (hgone : c ∉ (pass Gen.proxyEvictionListFresh T s).clients) : s.now + 1 > c.hb + T := by
+  have e : Gen.proxyEvictionListFresh = true := by decide
+  rw [e] at hgone
+  unfold pass at hgone
+  simp only [if_true, List.nil_append] at hgone
+  by_cases hl : timedOut T { s with now := s.now + 1 } = []
+  · rw [if_pos hl] at hgone
+    exact absurd hc hgone
+  · rw [if_neg hl] at hgone
+    simp only at hgone
+    have hm := evict_subset (timedOut T { s with now := s.now + 1 }) { s with now := s.now + 1 } c hc hgone
+    simp only [timedOut, List.mem_map, List.mem_filter, decide_eq_true_eq] at hm
+    obtain ⟨d, ⟨_, hd⟩, hsid⟩ := hm
+    -- (the registry is keyed by session id: the record that timed out is `c` itself)
+    have : d = c := same_of_sid s.clients hu d c (by simpa using ‹d ∈ _›) hc hsid
+    subst this
+    simpa using hd
+
+open RPVerif.Proxy in
+/-- the list matters: kept across passes, it still names session 7 after that session was ended for its silence; when the
+    same id registers again and sends its heartbeats, the next pass ends the new registration too -/
+theorem C16_proxy_witness :
+    (run false 10 {} [[.reg 7], [.skip 20], [], [.reg 7, .hb 7], [.hb 7]]).ended = [(7, 1), (7, 2)]
+    ∧ (run true 10 {} [[.reg 7], [.skip 20], [], [.reg 7, .hb 7], [.hb 7]]).ended = [(7, 1)]
+    ∧ (run true 10 {} [[.reg 7], [.skip 20], [], [.reg 7, .hb 7], [.hb 7]]).clients.map (·.gen) = [2] := by decide
 
 end RPVerif.C16
